@@ -168,6 +168,8 @@ def family_matrix():
                                 st["key"] = "k%d" % i
                             if j == 1:
                                 st["size"] = 4096
+                            if j != 0:
+                                st["ts"] = 1000 * i + 7
                             if vt(v) >= (0, 11) and j != 1:
                                 st["hdrs"] = (i % 3)
                             steps.append(st)
